@@ -279,6 +279,11 @@ func newFwRun(c *h.Ctx, id string, r *rand.Rand, prop string) *fwRun {
 func (fr *fwRun) pickName(localhost bool) enc.Name {
 	n := fr.u.Pick(fr.r)
 	if len(n) == 0 {
+		// the empty name "/" is a legal Interest/Data name (with CanBePrefix it matches everything,
+		// /localhost content included): keep it in the mix, but rare
+		if fr.r.Intn(4) == 0 {
+			return enc.Name{}
+		}
 		n = fr.u.PickDepth(fr.r, 1)
 	}
 	if localhost && fr.r.Intn(3) == 0 {
